@@ -131,10 +131,47 @@ func fmp4Codec(t TrackDesc) fmp4.Codec {
 	}
 }
 
+// the init-section codec of a track the client filters out of OnTracks (pkg/codecs FromFMP4
+// knows AV1, VP9, H265, H264, Opus, MPEG-4 audio and nothing else)
+func fmp4UnsupCodec(codec string) fmp4.Codec {
+	switch codec {
+	case "mp3":
+		return &fmp4.CodecMPEG1Audio{SampleRate: 48000, ChannelCount: 2}
+	case "ac3":
+		return &fmp4.CodecAC3{SampleRate: 48000, ChannelCount: 6, Fscod: 0, Bsid: 8, Bsmod: 0, Acmod: 7, LfeOn: true, BitRateCode: 0xf}
+	case "lpcm":
+		return &fmp4.CodecLPCM{BitDepth: 24, SampleRate: 48000, ChannelCount: 2}
+	case "mjpeg":
+		return &fmp4.CodecMJPEG{Width: 640, Height: 480}
+	case "mpeg4video":
+		return &fmp4.CodecMPEG4Video{Config: []byte{
+			0x00, 0x00, 0x01, 0xb0, 0x01, 0x00, 0x00, 0x01,
+			0xb5, 0x89, 0x13, 0x00, 0x00, 0x01, 0x00, 0x00,
+			0x00, 0x01, 0x20, 0x00, 0xc4, 0x8d, 0x88, 0x00,
+			0xf5, 0x3c, 0x04, 0x87, 0x14, 0x63, 0x00, 0x00,
+			0x01, 0xb2, 0x4c, 0x61, 0x76, 0x63, 0x35, 0x38,
+			0x2e, 0x31, 0x33, 0x34, 0x2e, 0x31, 0x30, 0x30,
+		}}
+	default: // mpeg1video
+		return &fmp4.CodecMPEG1Video{Config: []byte{
+			0x00, 0x00, 0x01, 0xb3, 0x78, 0x04, 0x38, 0x35,
+			0xff, 0xff, 0xe0, 0x18, 0x00, 0x00, 0x01, 0xb5,
+			0x14, 0x4a, 0x00, 0x01, 0x00, 0x00,
+		}}
+	}
+}
+
 func (s *synth) buildFMP4Stream(si int, st *StreamDesc) (initB []byte, segB [][]byte, err error) {
 	init := &fmp4.Init{}
-	for _, t := range st.Tracks {
-		init.Tracks = append(init.Tracks, &fmp4.InitTrack{ID: t.ID, TimeScale: uint32(t.TimeScale), Codec: fmp4Codec(t)})
+	// init order: like a PMT, the unsupported tracks before / between / after the supported ones
+	for _, e := range st.pmt() {
+		if e.Sup >= 0 {
+			t := st.Tracks[e.Sup]
+			init.Tracks = append(init.Tracks, &fmp4.InitTrack{ID: t.ID, TimeScale: uint32(t.TimeScale), Codec: fmp4Codec(t)})
+		} else {
+			u := st.Unsup[e.X]
+			init.Tracks = append(init.Tracks, &fmp4.InitTrack{ID: u.ID, TimeScale: uint32(u.TimeScale), Codec: fmp4UnsupCodec(u.Codec)})
+		}
 	}
 	initB, err = marshalMP4(init)
 	if err != nil {
@@ -147,11 +184,21 @@ func (s *synth) buildFMP4Stream(si int, st *StreamDesc) (initB []byte, segB [][]
 			part := &fmp4.Part{SequenceNumber: seqNo}
 			seqNo++
 			for _, pt := range p.Tracks {
-				td := st.Tracks[pt.Track]
-				ptr := &fmp4.PartTrack{ID: td.ID, BaseTime: uint64(pt.Base)}
+				id, supported, video, ok := st.trafTrack(pt)
+				if !ok {
+					return nil, nil, fmt.Errorf("traf: no track %d", pt.Track)
+				}
+				ptr := &fmp4.PartTrack{ID: id, BaseTime: uint64(pt.Base)}
 				for k, sm := range pt.Samples {
 					ps := &fmp4.PartSample{Duration: uint32(sm.Dur), PTSOffset: int32(sm.Off)}
-					if td.isVideo() {
+					switch {
+					case !supported:
+						// a track the client does not process: never a Client callback
+						units := [][]byte{payloadBytes(s.salt, sm.ID+3000000, 20+sm.ID%13)}
+						ps.Payload = units[0]
+						ps.IsNonSyncSample = video && k != 0
+						s.xids[hashUnits(units)] = sm.ID
+					case video:
 						au := videoAU(s.salt, sm.ID, k == 0)
 						enc, err2 := h264.AVCC(au).Marshal()
 						if err2 != nil {
@@ -160,7 +207,7 @@ func (s *synth) buildFMP4Stream(si int, st *StreamDesc) (initB []byte, segB [][]
 						ps.Payload = enc
 						ps.IsNonSyncSample = k != 0
 						s.ids[hashUnits(au)] = sm.ID
-					} else {
+					default:
 						aus := audioAUs(s.salt, sm.ID, 1)
 						ps.Payload = aus[0]
 						s.ids[hashUnits(aus)] = sm.ID
